@@ -47,6 +47,7 @@ pub struct DtorObs {
 }
 
 enum Cmd {
+    Burst(Op, u32),
     Set(u8),
     Read,
     Op(Op, Vec<u16>),
@@ -62,7 +63,19 @@ enum Cmd {
     Exit { probe_late: bool },
 }
 
+/// what a burst saw: first outcome, number of later outcomes that differ
+/// from it, index of the first such, mode read before, number of later mode
+/// reads that differ
+struct BurstObs {
+    first: Outcome,
+    deviations: u32,
+    first_deviation: u32,
+    mode: u8,
+    mode_deviations: u32,
+}
+
 enum Reply {
+    Burst(u32, BurstObs),
     Ready(u32),
     Done(u32, Outcome, SinkInfo),
     Paused(u32, u16),
@@ -219,6 +232,39 @@ fn sim_thread_main(
             }
         };
         match cmd {
+            Cmd::Burst(op, k) => {
+                let read = || {
+                    catch_unwind(|| mode_index(RoundingMode::default())).unwrap_or(255)
+                };
+                let mut info = SinkInfo::default();
+                let mode = read();
+                let first = exec_caught(&op, &mut |_| {}, &mut info);
+                let mut obs = BurstObs {
+                    first,
+                    deviations: 0,
+                    first_deviation: 0,
+                    mode,
+                    mode_deviations: 0,
+                };
+                // a panicking call costs microseconds: a handful is enough
+                let k = if obs.first == Outcome::Panicked { k.min(16) } else { k };
+                for i in 1..k {
+                    let o = exec_caught(&op, &mut |_| {}, &mut info);
+                    if o != obs.first {
+                        obs.deviations += 1;
+                        if obs.first_deviation == 0 {
+                            obs.first_deviation = i;
+                        }
+                    }
+                    if i % 997 == 0 && read() != mode {
+                        obs.mode_deviations += 1;
+                    }
+                }
+                if read() != mode {
+                    obs.mode_deviations += 1;
+                }
+                let _ = tx.send(Reply::Burst(id, obs));
+            }
             Cmd::Set(m) => {
                 let r = catch_unwind(|| {
                     RoundingMode::set_default(MODES[m as usize])
@@ -392,6 +438,8 @@ pub struct RunResult {
     pub dtor_expected: u32,
     pub dtor_missing: u32,
     pub churned: u32,
+    /// operations executed inside `burst` steps
+    pub burst_ops: u64,
     /// largest number of simultaneously live threads reached by a `crowd` step
     pub crowded: u32,
 }
@@ -1096,6 +1144,79 @@ impl Runner {
         self.drive_op(step, tid, cmd)
     }
 
+    /// The same operation `k` times back-to-back on `tid`.
+    fn do_burst(&mut self, step: u32, tid: u32, op: &Op, k: u32) -> HResult<()> {
+        // no parking inside a burst
+        let mut op = op.clone();
+        if let Op::Fmt { pauses, .. } = &mut op {
+            pauses.clear();
+        }
+        let mut ev = self.blank(step, tid, EvKind::Op(op.clone()));
+        let obs = if self.threads[&tid].tx.is_none() {
+            return self.start_op(step, tid, &op, false, &[]); // main thread: a single call
+        } else {
+            self.threads[&tid]
+                .tx
+                .as_ref()
+                .unwrap()
+                .send(Cmd::Burst(op.clone(), k))
+                .map_err(|_| format!("T{}: command channel closed", tid))?;
+            match self.recv()? {
+                Some(Reply::Burst(t, obs)) if t == tid => obs,
+                Some(Reply::Harness(t, msg)) => return Err(format!("T{}: {}", t, msg)),
+                Some(_) => {
+                    return Err(format!(
+                        "T{}: reply from a thread that does not hold the baton",
+                        tid
+                    ))
+                }
+                None => {
+                    self.blocked(step, tid, "burst")?;
+                    return Ok(());
+                }
+            }
+        };
+        ev.outcome = obs.first.clone();
+        let model = ev.model_mode;
+        self.push(ev);
+        self.res.burst_ops += k as u64;
+        if obs.mode != model || obs.mode_deviations > 0 {
+            self.violation(
+                "L1",
+                "burst-read".into(),
+                step,
+                format!(
+                    "T{}: default() read {} before a burst of {} identical calls and differed {} time(s) \
+                     during/after it; the mode last set by T{} is {}",
+                    tid,
+                    if obs.mode == 255 { "a panic".to_string() } else { MODE_NAMES[obs.mode as usize].to_string() },
+                    k,
+                    obs.mode_deviations,
+                    tid,
+                    MODE_NAMES[model as usize]
+                ),
+            );
+        }
+        if obs.deviations > 0 {
+            self.violation(
+                "L3",
+                "burst-unstable".into(),
+                step,
+                format!(
+                    "T{}: `{}` repeated {} times back-to-back (nothing else ran in between) gave {} at first \
+                     but a different result in {} later call(s), first at call #{}",
+                    tid,
+                    op.to_text(),
+                    k,
+                    obs.first.show(),
+                    obs.deviations,
+                    obs.first_deviation + 1
+                ),
+            );
+        }
+        Ok(())
+    }
+
     /// `n` short-lived threads spawned by `tid`, one after another.
     fn do_churn(&mut self, step: u32, tid: u32, n: u16, m: u8) -> HResult<()> {
         for i in 0..n {
@@ -1234,6 +1355,7 @@ impl Runner {
             Action::Die(op) => self.start_op(ix, tid, op, true, yields),
             Action::Exit { probe_late } => self.do_exit(ix, tid, *probe_late),
             Action::Churn { n, m } => self.do_churn(ix, tid, *n, *m),
+            Action::Burst { op, k } => self.do_burst(ix, tid, op, *k),
             Action::Crowd { n, m } => self.do_crowd(ix, tid, *n, *m),
             Action::Sweep => unreachable!(),
         }
